@@ -197,6 +197,22 @@ func (b *backend) invalidate(ctx context.Context, key string) {
 	}
 }
 
+// endPolicyTxStorage commits the storage transaction of a request that has
+// created or changed the named policies inside that transaction. The policy
+// objects involved live in (or have already been stored into) the lock
+// manager's cache, so a failed commit would leave the cache ahead of the
+// storage. In that case drop them from the cache: the next request loads the
+// committed state again.
+func (b *backend) endPolicyTxStorage(ctx context.Context, req *logical.Request, names ...string) error {
+	if err := logical.EndTxStorage(ctx, req); err != nil {
+		for _, name := range names {
+			b.lm.InvalidatePolicy(name)
+		}
+		return err
+	}
+	return nil
+}
+
 // periodicFunc is a central collection of functions that run on an interval.
 // Anything that should be called regularly can be placed within this method.
 func (b *backend) periodicFunc(ctx context.Context, req *logical.Request) error {
